@@ -86,11 +86,24 @@ def check_cases(chk, cases):
             continue
         try:
             o = blocks.build(kind, fmt, v)
-            for name, nb, nw, nc in item_triples(kind, fmt, v, o):
+            triples = item_triples(kind, fmt, v, o)
+            for name, nb, nw, nc in triples:
                 chk.count("item:" + name)
                 if not (nb == nw == nc):
                     chk.violation("%s in %s: nBytes=%r, written=%r, consumed=%r" % (name, kind, nb, nw, nc), case, True)
                     break
+            else:
+                # the run-length coded items: the code's own size arithmetic as modelled in SizeFacts.v
+                spec = {"D3": (1, 12, lambda: [t[1] for t in v[9]]), "EM": (1, 4, lambda: [t[1] for t in v[5]]),
+                        "FT": (1, 36, lambda: [t[1] for t in v[8]]), "PD": (0, 24, lambda: list(v[5]))}.get(kind)
+                if spec and triples:
+                    res = common.run_model([(47, [spec[0], spec[1], fr]) for fr in spec[2]()])
+                    for (name, nb, nw, nc), r in zip(triples, res):
+                        chk.count("item size formula compared")
+                        if r[1] != nb:
+                            chk.violation("%s in %s: nBytes=%r, the modelled size arithmetic (SizeFacts.nbytes_track) gives %r" %
+                                          (name, kind, nb, r[1]), dict(case, correspondence="Proofs/SizeFacts.v nbytes_track"), False)
+                            break
         except Exception as e:
             chk.violation("%s: item sizes: %s" % (kind, common.exc_info(e)), case, True)
 
